@@ -514,7 +514,10 @@ class RaggedArray(IndexableArray, np.lib.mixins.NDArrayOperatorsMixin):
 
     @reduction(allowed_axis=(-1, 1))
     def argmin(self, axis=None):
-        return (-self).argmax(axis=-1)
+        m = self.min(axis=-1, keepdims=True)
+        rows, cols = np.nonzero(self == m)
+        _, idxs = np.unique(rows, return_index=True)
+        return cols[idxs]
 
     def cumsum(self, axis: int = None, dtype: npt.DTypeLike = None) -> 'RaggedArray':
         """Return an array with cumulative sums along the given axis
